@@ -24,6 +24,7 @@ extern void mpt_gnode_relink(MPT_STRUCT(node) *node)
 	
 	if (node->children) {
 		node->children->parent = node;
+		node->children->prev = 0;
 	}
 	node = node->children;
 	
@@ -35,6 +36,8 @@ extern void mpt_gnode_relink(MPT_STRUCT(node) *node)
 		}
 		if (node->children) {
 			node->children->parent = node;
+			/* a first child has no predecessor */
+			node->children->prev = 0;
 			node = node->children;
 			continue;
 		}
